@@ -7736,6 +7736,7 @@ jdf_generate_code_iterate_successors_or_predecessors(const jdf_t *jdf,
     string_arena_t *sa_coutput    = string_arena_new(1024);
     string_arena_t *sa_deps       = string_arena_new(1024);
     string_arena_t *sa_datatype   = string_arena_new(1024);
+    char *prev_local_type = NULL;
 
     string_arena_t *sa_tmp_arena  = string_arena_new(256);
     string_arena_t *sa_tmp_count  = string_arena_new(256);
@@ -7808,6 +7809,8 @@ jdf_generate_code_iterate_successors_or_predecessors(const jdf_t *jdf,
                 "    data.data   = this_task->data._f_%s.data_out;\n"
                 "    data.data_future  = NULL;\n",
                 fl->varname);
+        free(prev_local_type);
+        prev_local_type = NULL;
 
         for(dl = fl->deps; dl != NULL; dl = dl->next) {
             if( !(dl->dep_flags & flow_type) ) continue;
@@ -7904,6 +7907,22 @@ jdf_generate_code_iterate_successors_or_predecessors(const jdf_t *jdf,
             }
 
             string_arena_add_string(sa_datatype,"  if (action_mask & (PARSEC_ACTION_RESHAPE_ON_RELEASE | PARSEC_ACTION_RESHAPE_REMOTE_ON_RELEASE | PARSEC_ACTION_SEND_REMOTE_DEPS)) {\n");
+            {
+                /* The reshape promise travels from one dependency to the next in
+                 * data.data_future as long as they share the local (reshape) type:
+                 * it must be forgotten when that type changes (see
+                 * parsec_create_reshape_promise). */
+                char *cur_local_type = NULL;
+                int rc_asp = asprintf(&cur_local_type, "%s|%s|%s|%s",
+                                      string_arena_get_string(sa_tmp_arena), string_arena_get_string(sa_tmp_type),
+                                      string_arena_get_string(sa_tmp_count), string_arena_get_string(sa_tmp_displ));
+                (void)rc_asp;
+                if( (NULL != prev_local_type) && (NULL != cur_local_type) && strcmp(prev_local_type, cur_local_type) ) {
+                    string_arena_add_string(sa_datatype, "    data.data_future  = NULL;\n");
+                }
+                free(prev_local_type);
+                prev_local_type = cur_local_type;
+            }
             jdf_generate_code_fillup_datatypes(sa_tmp_arena,    NULL,
                                                sa_tmp_type,     NULL,
                                                sa_tmp_displ,    NULL,
@@ -8091,6 +8110,7 @@ jdf_generate_code_iterate_successors_or_predecessors(const jdf_t *jdf,
     string_arena_free(sa1);
     string_arena_free(sa2);
     string_arena_free(sa_coutput);
+    free(prev_local_type);
     string_arena_free(sa_deps);
     string_arena_free(sa_datatype);
     string_arena_free(sa_tmp_arena);
